@@ -16,6 +16,25 @@ EmitOK == LET args == e.a
           IN /\ Classes(EmittedFrameOf(args)) = {C_OK}                        \* the spec's own reading accepts it
              /\ e.o = EmitObs(args)
 
+(* emitf failat <emit arguments>: the emission goes into a sink that refuses one of its calls; then a plain read request
+   is sent into a working sink.  o = rc1 seq1 rc2 seq2 n1 <octets accepted during the first emission>.
+   What reached the sink is a prefix of the prescribed wire image; a request whose sequence number reached the wire has
+   used that number up, so the next request carries the following one (whether a request of which nothing went out
+   uses its number up is left open: R4); responses never touch the session sequence number.                     *)
+EmitFOK == LET args == Tail(e.a)
+               W == Wire(args[2], EmittedFrameOf(args))
+               seq0 == args[4]
+               isReq == args[1] \in 1..4
+               rc1 == e.o[1]
+               s1 == e.o[2]
+               n1 == e.o[5]
+           IN /\ n1 <= Len(W) /\ Drop(e.o, 5) = Take(W, n1)
+              /\ rc1 \in {0, -1} /\ (rc1 = 0 => n1 = Len(W))
+              /\ IF isReq THEN /\ s1 \in {seq0, (seq0 + 1) % 65536}
+                               /\ (rc1 = 0 \/ n1 >= 12 => s1 = (seq0 + 1) % 65536)
+                          ELSE s1 = seq0
+              /\ e.o[3] = 0 /\ e.o[4] = (s1 + 1) % 65536
+
 (* ------------------------------------------------------------------ rx events (C06, C07, C09) *)
 MustFail == e.a[1] = 1        \* set by the generator for corruptions inside the family the CRC guarantees to be caught
                               \* (3 = burst across a checksum-field boundary: claimed by C07, not guaranteed - open finding)
@@ -50,6 +69,7 @@ TNext == /\ l <= Len(TraceLog) /\ l' = l + 1
          /\ CASE e.op = "@" -> TRUE
               [] e.op = "sizeof" -> TRUE
               [] e.op = "emit" -> EmitOK /\ e.asan = 0
+              [] e.op = "emitf" -> EmitFOK /\ e.asan = 0
               [] e.op = "rx" -> RxOK /\ e.asan = 0
               [] e.op = "rxn" -> RxnOK /\ e.asan = 0
               [] e.op = "rxopen" -> TRUE
